@@ -4,6 +4,7 @@ package main
 
 import (
 	"reflect"
+	"strings"
 	"unicode/utf8"
 
 	"github.com/cockroachdb/redact"
@@ -19,7 +20,7 @@ func init() {
 }
 
 func c04opts() genOpts {
-	return genOpts{invalidUTF8: false, redactKinds: false, panics: true, safeKinds: true, addrs: true, maxDepth: 3}
+	return genOpts{invalidUTF8: false, redactKinds: false, panics: true, safeKinds: true, addrs: true, starKinds: true, maxDepth: 3}
 }
 
 // productLeaves: for each leaf kind two descriptors (a zero-ish and a rich one).
@@ -35,9 +36,12 @@ func productLeaves(o genOpts, withSafeKinds bool) []*D {
 		case "float32", "float64", "NFloat":
 			out = append(out, &D{K: k, F: 0}, &D{K: k, F: -1234.5678}, &D{K: k, S: "NaN"}, &D{K: k, S: "-Inf"}, &D{K: k, S: "-0"})
 		case "complex64", "complex128":
-			out = append(out, &D{K: k, F: 0, N: 0}, &D{K: k, F: 1.5, N: -2}, &D{K: k, S: "NaN", N: 3}, &D{K: k, S: "+Inf", N: 0})
-		case "string", "NStr", "bytes", "NBytes", "barr":
+			out = append(out, &D{K: k, F: 0, N: 0}, &D{K: k, F: 1.5, N: -2}, &D{K: k, S: "NaN", N: 3}, &D{K: k, S: "+Inf", N: 0}, &D{K: k, F: 1, N: 9001}, &D{K: k, F: -2.5, N: 9003}, &D{K: k, S: "-0", N: 9004})
+		case "string", "NStr", "bytes", "NBytes", "barr", "barr8", "nbarr", "nbslice", "SNArr":
 			out = append(out, dS(k, ""), dS(k, rich))
+			if k == "barr8" {
+				out = append(out, dS(k, "hé☺x"))
+			}
 		default:
 			out = append(out, dN(k, 0), dN(k, -48879), dN(k, 0x2039))
 		}
@@ -52,7 +56,7 @@ func productLeaves(o genOpts, withSafeKinds bool) []*D {
 		out = append(out, &D{K: k, S: QS(rich)})
 	}
 	for _, k := range panicKinds {
-		out = append(out, &D{K: k, S: QS(rich), N: 0}, &D{K: k, S: QS(rich), N: 4})
+		out = append(out, &D{K: k, S: QS(rich), N: 0}, &D{K: k, S: QS(rich), N: 4}, &D{K: k, S: QS(rich), N: 6}, &D{K: k, S: QS(rich), N: 7})
 	}
 	if withSafeKinds {
 		for _, k := range safeKinds {
@@ -146,6 +150,14 @@ func c04check(w *Worker, c *Call, idx int64) {
 	}
 	got := redact.RedactableString(ro.out).StripMarkers()
 	want := esc(fo.out)
+	if got != want && len(got)+len(want) > 200000 {
+		i := 0
+		for i < len(got) && i < len(want) && got[i] == want[i] {
+			i++
+		}
+		w.Violate("C04 text", "outputs of "+itoa(len(got))+" (redact, stripped) and "+itoa(len(want))+" (fmt) bytes differ from byte "+itoa(i)+" on: redact "+q(clip(got[i:], 60))+" fmt "+q(clip(want[i:], 60))+" for "+c.String()+" via "+routeNames[route], cs())
+		return
+	}
 	if got != want {
 		w.Violate("C04 text", "StripMarkers(redact)="+q(got)+" esc(fmt)="+q(want)+" redact raw="+q(ro.out)+" for "+c.String()+" via "+routeNames[route], cs())
 		return
@@ -187,6 +199,10 @@ func runC04(c *Ctx) {
 	calls := productCalls(productLeaves(o, true))
 	c.AddCount("product_calls", int64(len(calls)))
 	c.ParallelFor(int64(len(calls)), func(w *Worker, i int64) { c04check(w, calls[i], i) })
+	// literal and '*' widths and precisions at the limits the format parser accepts (megabyte-sized outputs: a fixed handful)
+	th := thresholdCalls()
+	c.AddCount("threshold_calls", int64(len(th)))
+	c.ParallelFor(int64(len(th)), func(w *Worker, i int64) { c04check(w, th[i], i) })
 	n := c.pick(3000000, 40000000)
 	c.ParallelFor(n, func(w *Worker, i int64) {
 		r := newRng(c.Seed, 0xc04, uint64(i))
@@ -195,4 +211,33 @@ func runC04(c *Ctx) {
 	})
 	c.res.Assumptions = []string{"go1.23.5 fmt is the reference", "excluded per the statement: %w, '0' combined with '-' (or with a '*' width), cases in which fmt's own output is not valid UTF-8"}
 	c.Extra("registered_safe_types", redact.VerifSafeTypeCount())
+}
+
+// thresholdCalls: numbers in the format at and beyond the parser's limit (fmt accepts a literal number as long as the
+// value accumulated *before* its last digit is at most 1e6, and a '*' operand up to 1e6 in magnitude).
+func thresholdCalls() []*Call {
+	var out []*Call
+	for _, f := range []string{"a%1000000d|tail %d.", "a%1000001d|tail %d.", "a%999999d|tail %d.", "a%.1000001d|tail %d.", "a%2000000v|tail %d.", "a%10000009x|tail %d.",
+		"a%10000010d|tail %d.", "a%-1000001s|tail %d.", "a%[1]*[2]d|tail %d.", "a%01000003d|tail %d.", "a%1000001.1000001d|tail %d."} {
+		args := []*D{dN("int", 7), dN("int", 8)}
+		if strings.Contains(f, "[1]*") {
+			args = []*D{dN("int", 1000000), dN("int", 8), dN("int", 9)}
+		}
+		if strings.Contains(f, "s|") {
+			args = []*D{dS("string", "x"+startM), dN("int", 8)}
+		}
+		out = append(out, &Call{Raw: QS(f), Args: args})
+	}
+	for _, wt := range []string{"1e6", "1e6+1", "-1e6-1"} {
+		out = append(out, &Call{Dirs: []Dir{{Lit: "w", Width: "*", WT: wt, Verb: "d"}, {Lit: "|", Verb: "v"}}, Tail: ".", Args: []*D{dN("int", 7), dS("string", "t")}},
+			&Call{Dirs: []Dir{{Lit: "p", Prec: ".*", PT: wt, Verb: "d"}, {Lit: "|", Verb: "v"}}, Tail: ".", Args: []*D{dN("int", 7), dS("string", "t")}})
+	}
+	return out
+}
+
+func clip(s string, n int) string {
+	if len(s) > n {
+		return s[:n]
+	}
+	return s
 }
